@@ -7,9 +7,12 @@ git -C /tmp/seedrepo checkout -q --detach $H 2>/dev/null || git -C /repo worktre
 for d in seeded/*/; do
   n=$(basename $d); p=${n:0:3}
   git -C /tmp/seedrepo checkout -q -- . ; git -C /tmp/seedrepo clean -fdq -e target
-  if git -C /tmp/seedrepo apply --check $PWD/$d/patch.diff 2>/dev/null; then
-    r=$(SEEDREPO=/tmp/seedrepo ./seedtest.sh rg_$n $PWD/$d/patch.diff $p 2>&1 | grep "^rg_" | head -1 | cut -c1-120)
-    echo "$n :: $r"
+  pf=""
+  if git -C /tmp/seedrepo apply --check $PWD/$d/patch.diff 2>/dev/null; then pf=$PWD/$d/patch.diff
+  elif [ -f $d/patch_head.diff ] && git -C /tmp/seedrepo apply --check $PWD/$d/patch_head.diff 2>/dev/null; then pf=$PWD/$d/patch_head.diff; fi   # re-created on newer sources
+  if [ -n "$pf" ]; then
+    r=$(SEEDREPO=/tmp/seedrepo ./seedtest.sh rg_$n $pf $p 2>&1 | grep "^rg_" | head -1 | cut -c1-120)
+    echo "$n :: $(basename $pf) :: $r"
   else
     echo "$n :: patch no longer applies to HEAD (base 68cac15)"
   fi
